@@ -176,7 +176,8 @@ def run_real(md, keep=None):
     _setup()
     d = keep or tempfile.mkdtemp(prefix="c21-", dir=os.environ.get("TMPDIR"))
     res = {"stub": None, "stub_err": None, "call": None, "call_err": None,
-           "stub_text": None, "psy_text": None, "stub_problems": []}
+           "stub_text": None, "psy_text": None, "stub_problems": [],
+           "acc": None, "acc_err": None}
     try:
         kfile = os.path.join(d, md["name"] + "_mod.f90")
         with open(kfile, "w") as f:
@@ -200,6 +201,14 @@ def run_real(md, keep=None):
             text = str(psy.gen)
             res["psy_text"] = text
             res["call"] = call_sigs(text, sub)
+            try:
+                from psyclone.domain.lfric import KernCallAccArgList
+                kern = psy.invokes.invoke_list[0].schedule.coded_kernels()[0]
+                acc = KernCallAccArgList(kern)
+                acc.generate()
+                res["acc"] = [str(x).replace(" ", "") for x in acc.arglist]
+            except Exception as e:  # noqa: BLE001
+                res["acc_err"] = type(e).__name__ + ": " + str(e)[:200]
         except Exception as e:  # noqa: BLE001
             res["call_err"] = type(e).__name__ + ": " + str(e)[:200]
     finally:
